@@ -1,2 +1,8 @@
-// Package c16 holds the workloads and monitors of property C16.
+// Package c16: failed EVM call frames leave no trace; a static call changes nothing; value is
+// conserved (minus what self-destructed accounts burn); gas returned never exceeds gas supplied.
+//
+// Programs come from a frame-tree DSL (verif/model/c16_*.go), are compiled to bytecode by the
+// harness and executed by the REAL core/vm interpreter on a REAL core/state.StateDB. The oracle is
+// the DSL's reference semantics (deep-copy snapshots, no journal, no gas) plus model-free
+// invariants observed through the vm.Tracer hook.
 package c16
